@@ -2,6 +2,7 @@ package c05
 
 import (
 	"context"
+	"errors"
 	"sort"
 	"strconv"
 	"strings"
@@ -26,7 +27,22 @@ type opRec struct {
 	Merged bool   // first operation of a harness thread: performed in the thread's start step, without a scheduling point of its own
 	Glued  bool   // operation on a key private to the request, performed in the same step as the thread's previous operation
 	After  string // abstract store content after the operation (aliased keys present + number of other keys)
+	Who    int    // harness thread (schedule exploration) or request number (sequential scenarios) that performed it
+	Fault  int    // environment answer: 0 = the store's own, 1 = generic error and the operation did not take effect,
+	//               2 = generic error although the operation took effect (write acknowledged too late)
 }
+
+// faultAt names one store operation that the environment answers with a generic error (NOT "not found"): the N-th
+// operation (from 0) of harness thread / request Who, or with Who < 0 the N-th operation of the whole run.
+type faultAt struct {
+	Who     int  `json:"who"`
+	N       int  `json:"n"`
+	Applied bool `json:"applied,omitempty"` // Set / Delete only: the operation took effect, the answer is an error all the same
+}
+
+// errInjected is what a Redis / memcached client returns on a time-out or a reset connection: an error that is
+// neither store.NotFound nor memcache.ErrCacheMiss.
+var errInjected = errors.New("verif: injected session-store failure: read tcp 127.0.0.1:6379: i/o timeout")
 
 // vstore is the store.StoreInterface handed to the REAL cache.Cache / SessionStoreImpl /
 // InMemorySessionDatabase. It delegates to the real go-cache store of the product and adds exactly two things:
@@ -55,6 +71,38 @@ type vstore struct {
 	// judge() verifies after every execution that each such key was indeed touched by one thread only.
 	gluePrivate bool
 	zeroOps     []bool // per harness thread: it finished without any store operation
+	// environment answers ("deviations"): see faultAt. track is set whenever the harness wants operations attributed
+	// to threads / requests (cur); it is off in the free-running race pass, where cur would itself be a data race.
+	track   bool
+	cur     int
+	faults  []faultAt
+	nGlobal int
+	nPer    map[int]int
+}
+
+// begin marks the end of seeding: operations are counted (and faults applied) from here on.
+func (s *vstore) begin(faults []faultAt) {
+	s.runFrom = len(s.log)
+	s.track, s.cur, s.faults, s.nGlobal, s.nPer = true, 0, faults, 0, map[int]int{}
+}
+
+// answer decides the environment's answer for the operation that is about to be performed (called with mu held).
+func (s *vstore) answer() int {
+	if !s.track {
+		return 0
+	}
+	g, p := s.nGlobal, s.nPer[s.cur]
+	s.nGlobal++
+	s.nPer[s.cur]++
+	for _, f := range s.faults {
+		if (f.Who < 0 && f.N == g) || (f.Who >= 0 && f.Who == s.cur && f.N == p) {
+			if f.Applied {
+				return 2
+			}
+			return 1
+		}
+	}
+	return 0
 }
 
 func newVStore(alias map[string]string) *vstore {
@@ -101,8 +149,12 @@ func (s *vstore) expire(ctx context.Context, k string) {
 	}
 }
 
-func (s *vstore) rec(op, k string, found bool, how int) {
-	s.log = append(s.log, opRec{Op: op, Key: k, Found: found, Merged: how == 1, Glued: how == 2, After: s.abstract()})
+func (s *vstore) rec(op, k string, found bool, how int, fault ...int) {
+	r := opRec{Op: op, Key: k, Found: found, Merged: how == 1, Glued: how == 2, After: s.abstract(), Who: s.cur}
+	if len(fault) > 0 {
+		r.Fault = fault[0]
+	}
+	s.log = append(s.log, r)
 }
 
 // point is the scheduling point in front of an operation. It is skipped for the first operation of a thread
@@ -115,7 +167,11 @@ func (s *vstore) point(op string, k string) int {
 	if _, named := s.alias[k]; s.gluePrivate && !named {
 		return 2
 	}
+	me := s.cur
 	sched.Point(op + " " + s.name(k))
+	if s.track {
+		s.cur = me // other threads ran meanwhile; this one holds the baton again
+	}
 	return 0
 }
 
@@ -125,6 +181,10 @@ func (s *vstore) Get(ctx context.Context, key any) (any, error) {
 	s.mu.Lock()
 	defer s.mu.Unlock()
 	s.expire(ctx, k)
+	if f := s.answer(); f != 0 {
+		s.rec("get", k, false, merged, 1)
+		return nil, errInjected
+	}
 	v, err := s.inner.Get(ctx, key)
 	s.rec("get", k, err == nil, merged)
 	return v, err
@@ -151,6 +211,11 @@ func (s *vstore) Set(ctx context.Context, key any, value any, options ...store.O
 	s.mu.Lock()
 	defer s.mu.Unlock()
 	o := store.ApplyOptions(options...)
+	f := s.answer()
+	if f == 1 {
+		s.rec("set", k, false, merged, 1)
+		return errInjected
+	}
 	// the product's own expiry is replaced by a far one: only the virtual expiry below decides
 	err := s.inner.Set(ctx, key, value, append(append([]store.Option{}, options...), store.WithExpiration(24*time.Hour))...)
 	if err == nil {
@@ -162,7 +227,10 @@ func (s *vstore) Set(ctx context.Context, key any, value any, options ...store.O
 		}
 		s.present[k] = true
 	}
-	s.rec("set", k, false, merged)
+	s.rec("set", k, false, merged, f)
+	if f == 2 {
+		return errInjected
+	}
 	return err
 }
 
@@ -171,10 +239,18 @@ func (s *vstore) Delete(ctx context.Context, key any) error {
 	merged := s.point("del", k)
 	s.mu.Lock()
 	defer s.mu.Unlock()
+	f := s.answer()
+	if f == 1 {
+		s.rec("del", k, false, merged, 1)
+		return errInjected
+	}
 	err := s.inner.Delete(ctx, key)
 	delete(s.exp, k)
 	delete(s.present, k)
-	s.rec("del", k, false, merged)
+	s.rec("del", k, false, merged, f)
+	if f == 2 {
+		return errInjected
+	}
 	return err
 }
 
